@@ -109,6 +109,12 @@ func (c *StandardClass) Pkg() *slip.Package {
 	return c.pkg
 }
 
+// IsFinal returns true if the class can not be redefined as is the case for
+// the built in classes and conditions.
+func (c *StandardClass) IsFinal() bool {
+	return c.Final
+}
+
 // Documentation of the class.
 func (c *StandardClass) Documentation() string {
 	return c.docs
